@@ -130,6 +130,12 @@ func runC06(p *core.Program, r *core.Report) {
 	// R6.5 generator side: the bound is only meaningful if the draws are uniform
 	checkDrawRoutines(p, r, "R6.5", "R6.5", "R6.5")
 	checkAlphabetProvenance(p, r, "R6.5")
+	// log2(Size) per word presupposes Size distinct, equally likely words (= C10 R10.2/R10.3 re-run)
+	if c2 := resolveWLCtor(p, r, "R6.5"); c2 != nil {
+		r.Borrow("R6.5", func() { checkKeptSet(p, r, c2) })
+	}
+	// … and the character recipe's count is the exact count (= C07 re-run)
+	r.Borrow("R6.4", func() { runC07(p, r) })
 	// the strings Generate can return are exactly those the count behind Entropy() counts: whole
 	// candidates over the alphabet, kept iff they hit every required set (= C02 R2.4/R2.5 re-run;
 	// a filter that accepts fewer strings makes each of them likelier than 2^-Entropy)
